@@ -1,19 +1,50 @@
 """C10 - the client's outgoing stream obeys msg_id, seq_no and acknowledgement rules (client as LTS:
-Coq invariants over all histories + trace validation of the real client against the extracted step)."""
+Coq invariants over all histories + trace validation of the real client against the extracted step).
+
+Two batches of schedules:
+  * cmd/c09 + Client/Model.v (model_C09): concurrent callers, containers, gzip - one connection;
+  * cmd/c11 + Client/Live.v (model_C11), profile c10: the same session over connection close + reconnect
+    (seq_no and msg_id must go on, not start over), salt rotation with re-sent requests, and server msg ids
+    that repeat or go backwards for content-related messages that are not answers (one ack per delivery)."""
+import json
+
 from .. import common as C
 from . import client_common as CC
+from . import live_common as L
+
+LIVE_RULE = (
+    " Second batch (cmd/c11, replayed through the extracted step2 of Client/Live.v): schedules with 0-2 orderly closes by the server "
+    "(the receive loop reads EOF and reconnects with the same key and session id) between requests, answers and acknowledgements, "
+    "and content-related service / API messages (odd seq_no, not rpc_results) that are repeated "
+    "verbatim, sent with a msg id BELOW an earlier one, or repeated inside a container after a newer item; "
+    "each ends with the closing procedure + probe call. Direct oracles over ALL connections of the session in the order the "
+    "reference server decrypted the frames: one session id; msg_id mod 4 = 0 and strictly increasing, seq_no non-decreasing also across "
+    "a reconnect (keys ...-across-reconnect); odd seq_no iff not msgs_ack; for every server msg id the number of msgs_ack naming it >= "
+    "the number of its deliveries with odd seq_no whose processing did not end in an error.")
 
 
 def run(ctx):
     # an independent set of schedules (own work directory, seed stream shifted) so that the command stands alone
     ctx.seed_shift = 1
     pr, stats, validated, dis, distinct, samples, exh = CC.run_prop(ctx, "C10", n_quick=300, n_thorough=3000)
-    return CC.finish(ctx, "C10", pr, stats, validated, dis, distinct, samples, exh,
+    n = 150 if ctx.tier == "quick" else 3000
+    lstats, lval, ldis, ldistinct, lsamples, lexh = L.run_batches(ctx, "C10", "c10", n, [L.PINNED + "/pinned-c10.script"], ())
+    for k, v in lstats.items():
+        stats["live_" + k] += v
+    stats["schedules"] += lstats["schedules"]
+    stats["actions"] += lstats["actions"]
+    samples = samples[:2] + lsamples[:1]
+    return CC.finish(ctx, "C10", pr, stats, validated + lval, dis + ldis, distinct | ldistinct, samples, exh + lexh,
                      "Direct oracle for C10 on the frames in the order the reference server decrypted them: msg_id mod 4 = 0, strictly "
                      "increasing, seconds part inside the run's clock window; odd seq_no iff not msgs_ack; seq_no non-decreasing; every server "
-                     "message with odd seq_no (top level, container, container item) named by a later msgs_ack once the receive loop is back at its read.")
+                     "message with odd seq_no (top level, container, container item) named by a later msgs_ack once the receive loop is back at "
+                     "its read." + LIVE_RULE)
 
 
 def replay(ctx, path):
-    r = CC.replay(ctx, "C10", path)
+    obj = json.load(open(path))
+    if "profile" in obj:
+        r = L.replay(ctx, "C10", path)
+    else:
+        r = CC.replay(ctx, "C10", path)
     return run(ctx) if r is None else r
